@@ -7,10 +7,16 @@ import (
 	"net/http"
 
 	"github.com/sassoftware/relic/v8/server"
+	"github.com/sassoftware/relic/v8/zz_verif/reflectx"
 )
 
 // ZZNew assembles a Daemon from parts, so that the real Serve and Close run on
 // simulated listeners (New insists on socket activation / real TCP).
 func ZZNew(srv *server.Server, httpServer *http.Server, listeners []net.Listener) *Daemon {
-	return &Daemon{server: srv, httpServer: httpServer, listeners: listeners, addrs: []string{"http://sim"}}
+	// by field type, not by field name: a rename must not break the check
+	d := new(Daemon)
+	if err := reflectx.Fill(d, srv, httpServer, listeners, []string{"http://sim"}); err != nil {
+		panic(err)
+	}
+	return d
 }
